@@ -13,7 +13,7 @@ import (
 func init() {
 	register(&propDef{
 		id:      "C21",
-		explain: "Structural necessary conditions of 'an https request never travels over a plaintext connection and vice versa': (R1) in HostClient's single request path every path to the transport passes, unconditionally, the comparison of HostClient.IsTLS with the scheme of the request URI obtained through Request.URI() (which forces the lazy parse), taken on its 'equal' outcome - a mismatch returns an error before anything is sent; (R2) Client.Do picks the host-client map with the same boolean it stores as IsTLS in the HostClient it creates, and that boolean is true exactly under the isHTTPS test; unsupported schemes return an error; (R3) dialAddr returns, when asked for TLS and the dialled connection is not already TLS, only the result of tls.Client / the TLS handshake; dialHostHard passes HostClient.IsTLS to it; (R4) PipelineClient hands its IsTLS to every connection client it creates; (R5) when a redirect Location is resolved against the current URL, every re-parse of the URI either parses text rebuilt from the base scheme and host or is followed by a look at the (saved) scheme - so a reference without a scheme keeps https. Not decided: LBClient over user-supplied clients, TLS correctness itself.",
+		explain: "Structural necessary conditions of 'an https request never travels over a plaintext connection and vice versa': (R1) in HostClient's single request path every path to the transport passes, unconditionally, the comparison of HostClient.IsTLS with the scheme of the request URI obtained through Request.URI() (which forces the lazy parse), taken on its 'equal' outcome - a mismatch returns an error before anything is sent; (R2) Client.Do picks the host-client map with the same boolean it stores as IsTLS in the HostClient it creates, and that boolean is true exactly under the isHTTPS test; unsupported schemes return an error; (R3) dialAddr returns, when asked for TLS and the dialled connection is not already TLS, only the result of tls.Client / the TLS handshake; dialHostHard passes HostClient.IsTLS to it; (R4) PipelineClient hands its IsTLS to every connection client it creates; (R5) when a redirect Location is resolved against the current URL, every re-parse of the URI either parses text rebuilt from the base scheme and host or is followed by a look at the (saved) scheme - so a reference without a scheme keeps https. (R6) a function that copies the relative form of the parsed URI (URI.RequestURI(): no scheme, no host) into the request header does not also mark the URI as not parsed - otherwise the scheme the caller set is forgotten and rebuilt as http. Not decided: LBClient over user-supplied clients, TLS correctness itself.",
 		run:     runC21,
 	})
 }
@@ -396,4 +396,75 @@ func schemeSurvivesResolution(p *Prog, r *Report) {
 		}
 	}
 	r.Floor("R5", "re-parses during reference resolution", n, 3)
+	schemeNotForgotten(p, r)
+}
+
+// lowersParsedURI: fn (or a module callee, to the given depth) stores false
+// into Request.parsedURI.
+func lowersParsedURI(fn *ssa.Function, depth int, seen map[*ssa.Function]bool) bool {
+	if fn == nil || fn.Blocks == nil || seen[fn] || depth < 0 {
+		return false
+	}
+	seen[fn] = true
+	for _, b := range fn.Blocks {
+		for _, in := range b.Instrs {
+			switch in := in.(type) {
+			case *ssa.Store:
+				if fa, ok := in.Addr.(*ssa.FieldAddr); ok && fieldName(fa.X.Type(), fa.Field) == "parsedURI" && typeNameOf(fa.X) == "Request" {
+					if k, isC := in.Val.(*ssa.Const); isC && k.Value != nil && k.Value.ExactString() == "false" {
+						return true
+					}
+				}
+			case ssa.CallInstruction:
+				if f := in.Common().StaticCallee(); f != nil && inModule(f) && recvTypeName(f) == "Request" && lowersParsedURI(f, depth-1, seen) {
+					return true
+				}
+			}
+		}
+	}
+	return false
+}
+
+// schemeNotForgotten (R6): the request line only carries the relative form of
+// the URI (URI.RequestURI() has neither scheme nor host). A function that
+// copies that form into the header must leave the parsed URI in place: if it
+// also marks the URI as not parsed, the next URI() rebuilds it from the Host
+// header and the relative form - as http - and the client picks the plaintext
+// pool for a request its caller addressed to https.
+func schemeNotForgotten(p *Prog, r *Report) {
+	rel := p.Func("(*URI).RequestURI")
+	if rel == nil {
+		r.Undecided("R6", "URI.RequestURI", "anchor not found")
+		return
+	}
+	n := 0
+	for _, fn := range p.funcsIn("") {
+		var flows []ssa.CallInstruction
+		allCalls(fn, func(b *ssa.BasicBlock, c ssa.CallInstruction) {
+			f := c.Common().StaticCallee()
+			if f == nil || !strings.HasPrefix(f.Name(), "SetRequestURI") || len(c.Common().Args) < 2 {
+				return
+			}
+			if rt := recvTypeName(f); rt != "Request" && rt != "RequestHeader" {
+				return
+			}
+			src := false
+			allCalls(fn, func(b2 *ssa.BasicBlock, c2 ssa.CallInstruction) {
+				if v, ok := c2.(*ssa.Call); ok && c2.Common().StaticCallee() == rel && derivesFromValue(c.Common().Args[1], v) {
+					src = true
+				}
+			})
+			if src {
+				flows = append(flows, c)
+			}
+		})
+		if len(flows) == 0 {
+			continue
+		}
+		n++
+		lowers := lowersParsedURI(fn, 2, map[*ssa.Function]bool{})
+		r.Check("R6", fmt.Sprintf("%s: copying the relative form of the parsed URI into the header keeps the parsed URI", funcName(fn)), !lowers, p.Pos(flows[0].Pos()),
+			"the function writes URI.RequestURI() (no scheme, no host) into the header and also marks the URI as not parsed: the next URI() rebuilds it from Host + relative form with scheme http, and Client.Do sends a request addressed to https over the plaintext pool")
+	}
+	r.Floor("R6", "functions copying the relative URI form into the header", n, 2)
 }
